@@ -2,6 +2,7 @@ package panos
 
 import (
 	"fmt"
+	"net/url"
 	"sort"
 
 	"github.com/pkg/diff/myers"
@@ -138,7 +139,7 @@ func (ab *rulesPair) diffRules(vsysPath string) []string {
 			moveTo := ""
 			if aPos < len(aRules) {
 				aName := aRules[aPos].Name
-				moveTo = "&where=before&dst=" + aName
+				moveTo = "&where=before&dst=" + url.QueryEscape(aName)
 			}
 			// Add command later, when names of groups have been determined.
 			insert = append(insert, insRules{
